@@ -66,7 +66,9 @@ def model_check(workdir):
 def drive_one(item):
     tid, sd, wd, limit, other, seed = item
     try:
-        return drive_select.drive(sd, wd, tid=tid, limit=limit, other=other, seed=seed)
+        # configuration: every second settings is selected with a tiny n_mat_max_eager, which sends selection through
+        # the 'lazy candidates first, eager candidates later' stages that small settings never reach otherwise
+        return drive_select.drive(sd, wd, tid=tid, limit=limit, other=other, seed=seed, eager_max=(2 if tid % 2 else None))
     except Exception:
         import traceback
         return {'tid': tid, 's': sd, 'crash': traceback.format_exc(limit=8)}
